@@ -177,9 +177,10 @@ RealBoth(e) ==
       near == B!AnyNearC(s, cand)
       c    == B!Ctx(s)
       o    == B!FastOutC(s, c, cand)
-  IN [v |-> IF ~wf THEN "malformed-input" ELSE IF near THEN "unspecified-near-threshold"
-            ELSE IF rv # "ok" THEN rv ELSE JudgeBig(e, c, o),
-      i |-> IF ~wf \/ near THEN [natoms |-> 0, read |-> ri] ELSE InfoBig(e, c, o, cand) @@ [read |-> ri]]
+  IN IF e.hasfile /\ rv # "ok"       \* the reader's result is wrong (or it raised): nothing to say about bonds
+     THEN [v |-> rv, i |-> [natoms |-> 0, read |-> ri]]
+     ELSE [v |-> IF ~wf THEN "malformed-input" ELSE IF near THEN "unspecified-near-threshold" ELSE JudgeBig(e, c, o),
+           i |-> IF ~wf \/ near THEN [natoms |-> 0, read |-> ri] ELSE InfoBig(e, c, o, cand) @@ [read |-> ri]]
 
 IsReal(e) == "kind" \in DOMAIN e /\ e.kind = "real"
 Init == tid \in 1..Len(Batch) /\ verdict = "pending" /\ info = <<>>
